@@ -18,7 +18,7 @@
         breadth-first search of the model (send outcomes: 1, all, block, gone, err; residue 0 / all; at most
         MAXARR arrivals); answer "states=N truncated=0|1 bound_bad=.. release_bad=.. parked_disc=.. [wb=TOKS] [wr=TOKS] [wd=TOKS]"
 
-   choice tokens: i ik<n> ig ie ir<n>   w wk<n> wg we   ta tb   es er eg ea *)
+   choice tokens: i ik<n> ig ie ir<n>   w wk<n> wg we   t0..t5 (tail phases)   es er eg ea *)
 open Model
 open Wvio
 
@@ -47,7 +47,7 @@ let io_s = function
   | IoEof -> "Eof"
 
 let wk_s = function
-  | WIdle -> "Idle" | WSvcConn -> "SvcConn" | WWrConn -> "WrConn" | WWrAcq -> "WrAcq"
+  | WIdle -> "Idle" | WSvcConn -> "SvcConn" | WSvcWc -> "SvcWc" | WWrConn -> "WrConn" | WWrAcq -> "WrAcq"
   | WFlush (c, s) -> "Flush." ^ fctx_s c ^ "." ^ b01 s | WSub (c, k) -> "Sub." ^ fctx_s c ^ "." ^ zi k
   | WFlushExn c -> "FlushExn." ^ fctx_s c
   | WFbPullE c -> "FbPullE." ^ fctx_s c | WFbWaitE c -> "FbWaitE." ^ fctx_s c
@@ -57,7 +57,6 @@ let wk_s = function
   | WAdd n -> "Add." ^ zi n | WPull -> "Pull" | WRel -> "Rel" | WRelRaise -> "RelRaise"
   | WKeepLen -> "KeepLen" | WFbTest -> "FbTest" | WFbAcq -> "FbAcq" | WFbRel -> "FbRel"
   | WCloseAcq -> "CloseAcq" | WCloseCwf -> "CloseCwf" | WCloseReq -> "CloseReq" | WCloseRel -> "CloseRel"
-  | WPopAcq -> "PopAcq" | WPopPop -> "PopPop" | WPopConn -> "PopConn" | WPopRel -> "PopRel"
 
 let kind_s = function
   | KAcq -> "acq" | KTry -> "try" | KRel -> "rel" | KWait -> "wait" | KWake -> "wake" | KNotify -> "notify"
@@ -74,11 +73,11 @@ let tid_s = function None -> "-" | Some TIo -> "i" | Some TW -> "w" | Some TT ->
 
 let state_s (p : params) (s : state) =
   Printf.sprintf
-    "t=%d;p=%d;c=%s;wc=%s;cwf=%s;n=%d;ol=%s;oc=%d;rl=%s;pl=%s;im=%s;sc=%s;cb=%s;rd=%s;gn=%s;pin=%d;io=%s;wk=%s;q=%s;ta=%d;tb=%d;app=%d;wire=%d;lw=%d;park=%s;blk=%s;spin=%s;qui=%s;bok=%s;rok=%s"
+    "t=%d;p=%d;c=%s;wc=%s;cwf=%s;n=%d;ol=%s;oc=%d;rl=%s;pl=%s;im=%s;sc=%s;cb=%s;rd=%s;gn=%s;pin=%d;io=%s;wk=%s;q=%s;tl=%s;trel=%s;ta=%d;tb=%d;app=%d;wire=%d;lw=%d;park=%s;blk=%s;spin=%s;qui=%s;bok=%s;rok=%s"
     (int_of_z s.total) (int_of_z s.pending) (b01 s.connected) (b01 s.will_close) (b01 s.cwf) (ni s.nreq)
     (tid_s s.olock) (ni s.ocount) (tid_s s.rlock) (b01 s.pulled) (b01 s.in_map) (b01 s.sock_closed)
     (b01 s.closed_bufs) (b01 s.reading) (b01 s.gone) (ni s.pending_in) (io_s s.io) (wk_s s.wk) (b01 s.queued)
-    (ni s.tailsA) (ni s.tailsB) (int_of_z s.appended) (int_of_z s.wire) (int_of_z s.last_write)
+    (match s.tlc with TNone -> "-" | TAcq -> "acq" | TPop -> "pop" | TConn -> "conn") (b01 s.trel) (ni s.tailsA) (ni s.tailsB) (int_of_z s.appended) (int_of_z s.wire) (int_of_z s.last_write)
     (b01 (w_parked s)) (b01 (io_blocked s)) (b01 (io_spinning p s)) (b01 (quiescent s))
     (b01 (bound_ok p s)) (b01 (release_ok p s))
 
@@ -108,7 +107,7 @@ let choice_of (tok : string) : choice =
     if rest <> "" && rest.[0] = 'r' then CIo (SRBlock, z_of_int (int_of_string (String.sub rest 1 (String.length rest - 1))))
     else CIo (sendres_of rest, Z0)
   | 'w' -> CW (sendres_of rest)
-  | 't' -> CTail (rest = "b")
+  | 't' -> CTail (nat_of_int (int_of_string rest))
   | 'e' -> CEnv (match rest with "s" -> EStall | "r" -> EResume | "g" -> EGone | "a" -> EArrive | _ -> failwith "bad env")
   | _ -> failwith ("bad token " ^ tok)
 
@@ -137,7 +136,7 @@ let tok_of_choice = function
   | CIo (SR k, _) -> "ik" ^ zi k | CIo (SRGone, _) -> "ig" | CIo (SRErr, _) -> "ie"
   | CIo (SRBlock, r) -> if r = Z0 then "i" else "ir" ^ zi r
   | CW (SR k) -> "wk" ^ zi k | CW SRGone -> "wg" | CW SRErr -> "we" | CW SRBlock -> "w"
-  | CTail b -> if b then "tb" else "ta"
+  | CTail n -> "t" ^ string_of_int (ni n)
   | CEnv EStall -> "es" | CEnv EResume -> "er" | CEnv EGone -> "eg" | CEnv EArrive -> "ea"
 
 
@@ -174,9 +173,16 @@ let do_follow gran p evs =
          let a = (match arg with "s" -> EStall | "r" -> EResume | "g" -> EGone | _ -> EArrive) in
          (match stepr p !s (CEnv a) with Some (s', _) -> s := s'; "ok;" ^ state_s p s' | None -> fail "env-disabled")
        | 't' ->
-         let b = (kind = "pull") in
-         (match stepr p !s (CTail b) with
-          | Some (s', _) -> s := s'; "ok;" ^ state_s p s'
+         (* arg = phase of the service() tail: 0 racq, 1 pop, 2 connected/add_task, 3 rrel, 4 connected, 5 pull *)
+         let n = int_of_string arg in
+         let tail k st = (match stepr p st (CTail (nat_of_int k)) with Some (s2, _) -> Some s2 | None -> None) in
+         (match tail n !s with
+          | Some s1 ->
+            let s1 = if locks && n = 0 then
+                (match tail 1 s1 with Some s2 -> (match tail 2 s2 with Some s3 -> s3 | None -> s2) | None -> s1)
+              else if locks && n = 3 then (match tail 4 s1 with Some s2 -> s2 | None -> s1)
+              else s1 in
+            s := s1; "ok;" ^ state_s p s1
           | None -> fail "tail-disabled")
        | _ ->
          let rec go fuel =
@@ -191,7 +197,7 @@ let do_follow gran p evs =
                   let s' = if locks then advance_silent p s' thr res 64 else s' in
                   (* the tail of service() reads connected right after releasing requests_lock *)
                   let s' = if locks && thr = 'w' && kind = "rrel" then
-                      (match stepr p s' (CTail false) with Some (s2, _) -> s2 | None -> s') else s' in
+                      (match stepr p s' (CTail (nat_of_int 4)) with Some (s2, _) -> s2 | None -> s') else s' in
                   s := s'; "ok;" ^ state_s p s')
              else if locks && silent_kind k then
                (match take p !s thr "b" res with
@@ -238,7 +244,7 @@ let do_explore p maxstates maxarr =
         if s' <> s && not (Hashtbl.mem seen s') then begin
           if Hashtbl.length seen >= maxstates then truncated := true
           else (Hashtbl.add seen s' (); Queue.add (s', c :: path) q)
-        end) (io_choices @ w_choices @ [CTail false; CTail true] @ env)
+        end) (io_choices @ w_choices @ List.map (fun k -> CTail (nat_of_int k)) [0; 1; 2; 3; 4; 5] @ env)
   done;
   let w = function None -> "" | Some path -> String.concat "," (List.rev_map tok_of_choice path) in
   Printf.sprintf "states=%d truncated=%s bound_bad=%d release_bad=%d parked_disc=%d wb=%s wr=%s wd=%s"
